@@ -498,7 +498,9 @@ def midi_ticks_to_seconds(
         will be a numpy array with dtype float.
     """
 
-    time_in_seconds = (mpq * midi_ticks) / float(1e6 * ppq)
+    # float(mpq): in an int32 array of ticks (the dtype of the tick columns of
+    # partitura's own note arrays) the integer product mpq * midi_ticks wraps around
+    time_in_seconds = (float(mpq) * midi_ticks) / float(1e6 * ppq)
 
     return time_in_seconds
 
